@@ -9,6 +9,7 @@ length bound) on the same generated registries."""
 
 from __future__ import annotations
 
+from fractions import Fraction
 import itertools
 import random
 
@@ -310,6 +311,48 @@ def h_case_insensitive_history(eng, stems):
                     eng.prove(ask(reg, text, case_sensitive=True) is None, f"double-prefix-refused-after-history:{config}:{text}")
 
 
+def h_symbols_under_contexts(eng):
+    """a context that redefines the VALUE of a unit leaves its names alone: symbol, aliases and
+    the symbols of prefixed forms are what the unit's own definition says, before, inside and
+    after the context, whatever was looked up first; and `in` is about units only"""
+    import pint
+    from pint import Context
+
+    for first in ("outside", "inside"):
+        ureg = pint.UnitRegistry(non_int_type=eng.ntype)
+        ctx = Context("shortfoot")
+        ctx.redefine("feet = 0.3 * meter")
+        ctx.redefine("pound = 0.5 * kilogram")
+        ureg.add_context(ctx)
+        if first == "outside":
+            ureg.get_symbol("kilofoot"), ureg.parse_units("megafeet")
+
+        def probe(tag):
+            P = eng.prove
+            for spelling in ("foot", "feet", "ft", "international_foot"):
+                P(ureg.get_symbol(spelling) == "ft", f"symbols-under-context:{first}:{tag}:get_symbol({spelling})")
+                P(ureg.get_name(spelling) == "foot", f"symbols-under-context:{first}:{tag}:get_name({spelling})")
+            P(ureg.get_symbol("pounds") == "lb" and ureg.get_name("lb") == "pound", f"symbols-under-context:{first}:{tag}:pound")
+            P(ureg.get_symbol("kilofoot") == "kft" and ureg.get_symbol("megafeet") == "Mft" and ureg.get_symbol("millipounds") == "mlb", f"symbols-under-context:{first}:{tag}:prefixed")
+            P(format(ureg.Unit("foot*pound/second**2"), "~") == "ft * lb / s ** 2", f"symbols-under-context:{first}:{tag}:short-format")
+            P(format(ureg.Unit("foot*pound/second**2"), "~P") == "ft·lb/s²", f"symbols-under-context:{first}:{tag}:short-pretty-format")
+            P(format(ureg.Unit("foot"), "") == "foot", f"symbols-under-context:{first}:{tag}:long-format")
+
+        probe("before")
+        with ureg.context("shortfoot"):
+            probe("inside")
+            eng.prove(ureg.Quantity(eng.num(1), "foot").to("meter").magnitude == eng.num(Fraction(3, 10)), f"symbols-under-context:{first}:redefinition-in-force")
+        probe("after")
+    ureg = regs.default(eng)
+    for name in ("define", "convert", "context", "wraps", "check", "Unit", "Quantity", "Measurement", "formatter", "case_sensitive", "sys", "default_format", "get_name", "parse_units", "enable_contexts", "non_int_type", "cache_folder", "preprocessors"):
+        try:
+            ureg.parse_units(name)
+            is_unit = True
+        except Exception:  # noqa: BLE001
+            is_unit = False
+        eng.prove((name in ureg) == is_unit, f"contains:registry-attribute-name:{name}")
+
+
 def h_delta_reading(eng):
     """in compound unit expressions offset units are read as their delta counterparts -- unless
     that is disabled, per call or per registry; single offset units are never rewritten; the
@@ -465,5 +508,6 @@ def cases(tier, seed):
     for i in range(0, len(stems), 2):
         out.append(Case("H08.e", f"case-insensitive-history:{i}", M, "h_case_insensitive_history", {"stems": stems[i : i + 2]}, kind="conc"))
     out.append(Case("H08.f", "delta-reading", M, "h_delta_reading", {}, kind="conc"))
+    out.append(Case("H08.e", "symbols-under-contexts", M, "h_symbols_under_contexts", {}, kind="conc"))
     out.append(Case("H08.obs", "observed", "pvlib.harness.observed", "h_c08", {}, kind="conc"))
     return out
